@@ -3,7 +3,7 @@
 From Coq Require Import ZArith String List Ascii Bool Permutation Sorting.Sorted.
 Import ListNotations.
 From FV.C04 Require Import Text Model Proofs Corr.
-From FV.C02 Require Import Model Proofs ProofsSeries Regex Clusters Rows Corr.
+From FV.C02 Require Import Model Proofs ProofsSeries Regex Clusters Rows ToDict Corr.
 From FV.C02.gen Require Import ResCfg.
 
 (* the header skip constants the model uses are the ones of the tree under test *)
@@ -39,6 +39,71 @@ Example C02_parse_res_as_written_example :
   /\ rows_as_written 3 raw = Ok (map S ["7 1.0E+00 2.0E+00 3.0E+00"; "3 4.0E+00 5.0E+00 6.0E+00"])
   /\ rows_as_written 1 (map S ["7"; "3"]) = Ok (map S ["7"; "3"]).
 Proof. vm_compute. repeat split; reflexivity. Qed.
+
+(* to_dict_fem_attributes as femio writes it -- nums = concatenate([[0], cumsum(component_nums)]) + 1,
+   ranges = zip(nums[:-1], nums[1:]), one to_fem_attribute per (name, range) -- is
+   Model.read_vars with its running column offset, on EVERY input *)
+Theorem C02_to_dict_as_written :
+  forall V vparse rows names cn,
+    to_dict_written V vparse rows names cn = read_vars V vparse rows 1 (combine names cn).
+Proof. exact to_dict_written_eq. Qed.
+
+(* to_fem_attribute as femio executes it -- the table of str.split(' ', expand=True)
+   padded with None to the longest row, ids = column 0, data = columns range(lo, hi)
+   by numpy FANCY indexing (IndexError beyond the width, no clipping), float() of
+   every cell -- succeeds exactly when the row-wise Model.parse_cols does, with the
+   same table, on every table (>= 1 row) whose rows all have the columns asked for;
+   and whenever the model reads a table, the code as written reads the same one *)
+Theorem C02_to_fem_attribute_as_written :
+  forall V vparse vnan rows lo hi t,
+    rows <> [] ->
+    Forall (fun toks => hi <= length toks /\ 1 <= length toks) rows ->
+    (to_fem_attribute_written V vparse vnan rows lo hi = Ok t
+     <-> mapM (parse_cols V vparse lo hi) rows = Ok t).
+Proof. intros V vparse vnan. exact (to_fem_attribute_written_ok V vparse vnan). Qed.
+Theorem C02_to_fem_attribute_refines :
+  forall V vparse vnan rows lo hi t,
+    rows <> [] ->
+    mapM (parse_cols V vparse lo hi) rows = Ok t -> to_fem_attribute_written V vparse vnan rows lo hi = Ok t.
+Proof. intros V vparse vnan. exact (to_fem_attribute_written_refines V vparse vnan). Qed.
+
+(* observation (malformed input, outside wf_content): a RAGGED table -- one entity
+   with fewer values than the header declares -- is not rejected by the code as
+   written: the missing cells of the padded table are None and .astype(float)
+   turns them into NaN silently, where the row-wise model reports an error *)
+Theorem C02_ragged_rows_nan_observation :
+  exists rows lo hi t,
+    to_fem_attribute_written str tparse (S "NAN") rows lo hi = Ok t
+    /\ In (S "NAN") (flat_map snd t)
+    /\ (exists msg, mapM (parse_cols str tparse lo hi) rows = Err msg).
+Proof.
+  exists [[S "7"; S "1.0E+00"; S "2.0E+00"]; [S "3"; S "3.0E+00"]], 1, 3,
+         [(7%Z, [S "1.0E+00"; S "2.0E+00"]); (3%Z, [S "3.0E+00"; S "NAN"])].
+  split; [vm_compute; reflexivity|]. split; [vm_compute; tauto|]. eexists. vm_compute. reflexivity.
+Qed.
+
+(* update_time_series succeeds exactly when every step has every variable NAME
+   of the first step (else KeyError); the variables of the series are exactly
+   those of the first step, in its order -- a variable only later steps have is
+   silently absent *)
+Theorem C02_series_variable_sets :
+  forall V (f0 : list (str * table V)) rest,
+    (exists r, stack_steps V (f0 :: rest) = Ok r)
+    <-> Forall (fun v => Forall (fun p => assoc (fst v) p <> None) (f0 :: rest)) f0.
+Proof. exact stack_steps_ok_iff. Qed.
+Theorem C02_series_names_of_first_step :
+  forall V steps r, stack_steps V steps = Ok r ->
+    exists f0 rest, steps = f0 :: rest /\ map fst r = map fst f0.
+Proof. exact stack_steps_names. Qed.
+Example C02_to_dict_variable_sets_example :
+  ranges [3; 6; 1] = [(1, 4); (4, 10); (10, 11)]
+  /\ to_dict_padded str tparse (S "NAN") [[S "7"; S "1.0E+00"; S "2.0E+00"]; [S "3"; S "3.0E+00"; S "4.0E+00"]] [S "A"; S "B"] [1; 1]
+     = Ok [(S "A", [(7%Z, [S "1.0E+00"]); (3%Z, [S "3.0E+00"])]); (S "B", [(7%Z, [S "2.0E+00"]); (3%Z, [S "4.0E+00"])])]
+  /\ (exists m, to_fem_attribute_written str tparse (S "NAN") [[S "7"; S "1.0E+00"]; [S "3"; S "3.0E+00"]] 1 3 = Err m)
+  /\ (exists m, stack_steps str [[(S "A", [(1%Z, [S "x"])])]; [(S "B", [(1%Z, [S "y"])])]] = Err m)
+  /\ stack_steps str [[(S "A", [(1%Z, [S "x"])])]; [(S "A", [(1%Z, [S "y"])]); (S "B", [(1%Z, [S "z"])])]]
+     = Ok [(S "A", ([1%Z], [[[S "x"]]; [[S "y"]]]))].
+Proof. vm_compute. repeat split; try reflexivity; eexists; reflexivity. Qed.
 
 (* per-run tie of the file layer (shared with C04): StringSeries.read_file /
    read_files read the file on every call (no cache between a rewrite and the
@@ -269,6 +334,8 @@ Qed.
 Print Assumptions C02_res_roundtrip.
 Print Assumptions C02_split_series_as_written.
 Print Assumptions C02_parse_res_as_written.
+Print Assumptions C02_to_fem_attribute_as_written.
+Print Assumptions C02_series_variable_sets.
 Print Assumptions C02_series_any_file_order.
 Print Assumptions C02_elemental_ids_row_order_free.
 Print Assumptions C02_steps_sorted_stack.
